@@ -35,6 +35,16 @@ Definition show_payload (o : option obj) : bytes :=
 Definition show_key (k : bytes) : bytes := match k with [] => [x2d] | _ => k end.
 Definition show_bool (b : bool) : bytes := if b then s2b "true" else s2b "false".
 
+(* cache rows in leaf-index order (the harness reads them ORDER BY leaf_index), one line each *)
+Fixpoint insert_row (r : bytes * (N * Z)) (l : list (bytes * (N * Z))) : list (bytes * (N * Z)) :=
+  match l with
+  | [] => [r]
+  | h :: t => if fst (snd r) <=? fst (snd h) then r :: l else h :: insert_row r t
+  end.
+Definition sort_rows (l : list (bytes * (N * Z))) : list (bytes * (N * Z)) := fold_right insert_row [] l.
+Definition show_rows (l : list (bytes * (N * Z))) : bytes :=
+  concat (map (fun r => hx (fst r) ++ x3a :: dec (fst (snd r)) ++ x3a :: decZ (snd (snd r)) ++ [x0a]) l).
+
 Definition show_obs (o : obs) : bytes :=
   match o with
   | ObsOp i k key opt pl f ok =>
@@ -51,6 +61,8 @@ Definition show_obs (o : obs) : bytes :=
   | ObsAck wid None (Some e) => words [s2b "ack"; dec wid; s2b "err:" ++ show_errc e]
   | ObsAck wid None None => words [s2b "ack"; dec wid; s2b "err:?"]
   | ObsNote s => words [s2b "note"; s2b s]
+  | ObsCache i rows =>
+    words [s2b "cache"; show_nat i; dec (N.of_nat (length rows)); hex (sha (show_rows (sort_rows rows)))]
   end.
 
 (* one event, rendered *)
